@@ -45,8 +45,10 @@ def base_scenarios(rng, n):
             continue
         else:
             op = {'op': kind, 'n': rng.randint(2, 8), 'chunk_size': rng.choice([1, 2]), 'dur': {'kind': 'hash', 'salt': rng.randint(0, 99), 'unit': 0.01}}
-            if rng.random() < .3:
+            if rng.random() < .3 or kind == 'map':
+                # (stratified: the `map` base of every run has restarts, so that later instances of a worker id are crash points too)
                 op['worker_lifespan'] = rng.choice([1, 2])
+                op['n'] = max(op['n'], 5)
             if rng.random() < .3:
                 op['progress_bar'] = True
             if rng.random() < .4:
